@@ -240,6 +240,7 @@ func VP_C19_Deep() {
 	base := vpStackDepth()
 	maxd, count := 0, 0
 	var first, last *Node
+	vpPeakMark() // the whole of both traversals, not only the moments of the callbacks
 	for nd := range root.PreOrder() {
 		if d := vpStackDepth() - base; d > maxd {
 			maxd = d
@@ -259,7 +260,12 @@ func VP_C19_Deep() {
 		count++
 	}
 	vpAssert(count == total && last == root, "PostOrder visits every node of a deep tree once, root last")
+	peak := vpPeakDepth()
 	vpAssert(maxd <= 40, "the call depth during traversal does not grow with the depth of the tree")
+	if depth >= 50000 {
+		// (frames symbolically, KiB of stack growth natively: see vpPeakDepth)
+		vpAssert(peak <= 1000, "no part of a traversal makes one nested call per level of the tree")
+	}
 	vpObserveInt("nodes", total)
 	vpReach("end")
 }
